@@ -1118,6 +1118,9 @@ class G:
         special = {'tmo': self.i_timeout, 'envname': self.i_env, 'name': self.i_extra_def}.get(self.focus)
         if special is not None and self.maybe(2):
             special(ph)
+            if self.focus == 'tmo' and self.maybe(2):
+                # a timeout matters to the processes started after it
+                self.pick([self.i_sys, self.i_shell, self.i_run])(ph)
             return
         self.pick(table)(ph)
 
